@@ -1052,6 +1052,9 @@ class _FuncEval:
                 return ("const", base[1][slice(idx[1][1], idx[2][1], idx[3][1])])
         # user-defined __getitem__ that is a trivial wrapper
         t = self.ev.types.type_of(base, self)
+        if t is not None and t[0] == "tup" and idx[0] == "const" and isinstance(idx[1], int) and not isinstance(idx[1], bool) \
+                and 0 <= idx[1] < len(t[1]):
+            return mk_proj(base, idx[1])  # x[k] on a fixed-arity tuple is the same value as unpacking component k
         if t is not None and t[0] == "inst":
             c = self.prog.classes.get(t[1])
             if c is not None:
